@@ -160,13 +160,18 @@ pub fn build_req(spec: &ReqSpec, id: u16) -> Vec<u8> {
     if let Some(p) = spec.edns {
         let mut opts = vec![];
         if spec.pad > 0 {
+            // u16::MAX = "fill the message to 65535 octets", the largest frame TCP can carry
+            let pad = if spec.pad == u16::MAX { (65_535 - (wire::encode(&m).len() + 11 + 4)) as u16 } else { spec.pad };
             opts.extend(12u16.to_be_bytes());
-            opts.extend(spec.pad.to_be_bytes());
-            opts.extend(vec![0u8; spec.pad as usize]);
+            opts.extend(pad.to_be_bytes());
+            opts.extend(vec![0u8; pad as usize]);
         }
         m.additional.push(wire::opt_rr(p, 0, 0, &opts));
     }
     let mut out = wire::encode(&m);
+    if out.len() > 10_000 {
+        simrt::probe("c30_jumbo_request");
+    }
     if spec.kind == 11 {
         out.truncate(12 + 6); // header says one question, the question is cut short
     }
@@ -204,6 +209,8 @@ fn gen_req(r: &mut SplitMix, tcp: bool) -> ReqSpec {
     };
     let edns = if chance(r, 40) { Some(*pick(r, &[512u16, 1232, 4096, 65535, 300])) } else { None };
     let pad = if edns.is_some() && chance(r, 20) { *pick(r, &[100u16, 600, 1300, 5000]) } else { 0 };
+    // (requests of tens of kilobytes - up to the largest frame TCP can carry - are added per
+    // client in `gen`: see `jumbo`)
     ReqSpec { kind, edns, pad }
 }
 
@@ -231,13 +238,25 @@ impl Prop for C30 {
                 1 => 2,
                 _ => 0,
             };
-            let reqs: Vec<ReqSpec> = (0..nreq).map(|_| gen_req(r, true)).collect();
+            let mut reqs: Vec<ReqSpec> = (0..nreq).map(|_| gen_req(r, true)).collect();
+            // jumbo client (one in sixteen): most of its requests are tens of kilobytes long
+            // (EDNS padding), one possibly filling a TCP frame to the last octet (65535), so that
+            // the providers' receive buffers are used to their end and leftovers are large
+            let jumbo = chance(r, 6);
+            if jumbo {
+                for q in reqs.iter_mut() {
+                    if matches!(q.kind, 0 | 1 | 3 | 4 | 5 | 12) && chance(r, 75) {
+                        q.edns = Some(q.edns.unwrap_or(1232));
+                        q.pad = *pick(r, &[16_000u16, 20_000, 30_000, 30_000, 45_000, u16::MAX]);
+                    }
+                }
+            }
             // tens of kilobytes are not read octet by octet (cost, not correctness)
-            let big = reqs.iter().any(|q| q.kind == 2);
+            let big = jumbo || reqs.iter().any(|q| q.kind == 2);
             tcp.push(TcpClient {
                 connect_ms: *pick(r, &grid),
                 reqs,
-                segs: (0..range(r, 1, 4)).map(|_| *pick(r, &[1usize, 1, 2, 3, 7, 13, 37, 200, 70000])).collect(),
+                segs: if jumbo { (0..range(r, 1, 3)).map(|_| *pick(r, &[1000usize, 4096, 30_001, 65_536, 200_000])).collect() } else { (0..range(r, 1, 4)).map(|_| *pick(r, &[1usize, 1, 2, 3, 7, 13, 37, 200, 70000])).collect() },
                 pauses_ms: (0..range(r, 1, 3)).map(|_| *pick(r, &[0u64, 0, 0, 1, 10, 300, 999, 1500])).collect(),
                 mode: r.below(3) as u8,
                 cap: *pick(r, &[64usize, 1000, 1 << 20, 1 << 20]),
@@ -292,6 +311,33 @@ impl Prop for C30 {
                 _ => "eager:50".to_string(),
             }
         };
+        let mut shutdown_at_ms = if chance(r, 12) { Some(*pick(r, &grid) + r.below(3) * 700) } else { None };
+        let mut clock = clock;
+        if chance(r, 3) {
+            // "long pipeliner" profile for the graceful-shutdown bound: one well-behaved client keeps
+            // pipelining small requests for a long time, each write delivering the rest of one
+            // request together with the start of the next, while the group is shut down early on
+            let nreq = range(r, 10, 16) as usize;
+            // a plain query frame here is 2 + 29 = 31 octets: writes of a size coprime to it
+            // straddle every frame boundary
+            let seg = *pick(r, &[17usize, 19, 23, 40]);
+            tcp = vec![TcpClient {
+                connect_ms: 0,
+                reqs: (0..nreq).map(|_| ReqSpec { kind: 0, edns: None, pad: 0 }).collect(),
+                segs: vec![seg],
+                pauses_ms: vec![1500],
+                mode: 1,
+                cap: 1 << 20,
+                read_chunk: 65536,
+                read_pause_ms: 0,
+                fault: 0,
+                fault_after: 0,
+                v6: false,
+            }];
+            faults.clear();
+            clock = "des".to_string();
+            shutdown_at_ms = Some(range(r, 200, 4000));
+        }
         Scn {
             provider,
             tcp_base_workers: range(r, 0, 3) as usize,
@@ -302,7 +348,7 @@ impl Prop for C30 {
             tcp,
             udp,
             faults,
-            shutdown_at_ms: if chance(r, 12) { Some(*pick(r, &grid) + r.below(3) * 700) } else { None },
+            shutdown_at_ms,
             clock,
             strategy: pick(r, &["random", "random", "random", "pct:2", "pct:3"]).to_string(),
             calibrate: false,
@@ -453,7 +499,7 @@ impl Prop for C30 {
         serde_json::json!({ "measured_provider_constants": calibration_summary() })
     }
     fn expected_probes() -> Vec<&'static str> {
-        vec!["c30_tcp_exact_stream_checked", "c30_tcp_closed_after_responseless", "c30_tcp_leftover_pipelined", "c30_udp_truncated_to_buffer", "c30_shutdown_midrun", "tcp_write_blocked_on_backpressure", "c30_udp_exactly_once_checked", "c30_tokio_runs", "c30_blocking_runs"]
+        vec!["c30_tcp_exact_stream_checked", "c30_tcp_closed_after_responseless", "c30_tcp_leftover_pipelined", "c30_udp_truncated_to_buffer", "c30_shutdown_midrun", "tcp_write_blocked_on_backpressure", "c30_udp_exactly_once_checked", "c30_tokio_runs", "c30_blocking_runs", "c30_midrun_shutdown_bound_checked", "c30_jumbo_request"]
     }
 }
 
@@ -797,14 +843,25 @@ fn run_blocking(scn: &Scn) {
     }
     // optional mid-run shutdown
     let mut midrun = false;
+    // graceful shutdown while clients are active: with well-behaved clients only (no reset, no
+    // stall, reading without pauses) every connection handler finishes the message it is at -
+    // the client completes it within the message budget - answers it and then leaves, however
+    // much more the client has pipelined; so the group must be down within the idle-shutdown
+    // bound plus one message budget. (With slow readers the server may legitimately sit in a
+    // blocked write, so no bound is stated there.)
+    let polite = scn.tcp.iter().all(|c| c.fault == 0 && c.read_pause_ms == 0 && c.cap >= 1 << 20);
+    let midrun_took_ms = Arc::new(AtomicU64::new(u64::MAX));
     if let Some(at) = scn.shutdown_at_ms {
         midrun = true;
-        let group = group.clone();
+        let (group, took) = (group.clone(), midrun_took_ms.clone());
         hs.push(shuttle::thread::spawn(move || {
             simrt::thread::sleep(Duration::from_millis(at));
             simrt::count_fault(Fault::Shutdown);
             simrt::probe("c30_shutdown_midrun");
+            let t0 = simrt::now_ns();
             group.shut_down();
+            group.await_shutdown();
+            took.store((simrt::now_ns() - t0) / 1_000_000, SeqCst);
         }));
     }
     for h in hs {
@@ -817,6 +874,13 @@ fn run_blocking(scn: &Scn) {
     group.await_shutdown();
     let took_ms = (simrt::now_ns() - t0) / 1_000_000;
     simrt::thread::wait_all_exited();
+    let midrun_bound = shutdown_bound_ms(scn) + msg_budget_ms(scn) + 1_000;
+    if des && midrun && polite && !spawn_fail && scn.faults.is_empty() && midrun_took_ms.load(SeqCst) != u64::MAX {
+        simrt::probe("c30_midrun_shutdown_bound_checked");
+        if midrun_took_ms.load(SeqCst) > midrun_bound {
+            viol("shutdown-too-slow", format!("blocking provider: with well-behaved clients still sending, await_shutdown returned {} simulated ms after shut_down (bound {midrun_bound} ms: idle-shutdown bound + one message budget)", midrun_took_ms.load(SeqCst)));
+        }
+    }
     if des && !midrun && took_ms > shutdown_bound_ms(scn) {
         viol("shutdown-too-slow", format!("blocking provider: await_shutdown returned {took_ms} simulated ms after shut_down (bound {} ms)", shutdown_bound_ms(scn)));
     }
@@ -894,8 +958,11 @@ fn client_write_b(s: &mut simrt::net::TcpStream, c: &TcpClient, plan: &TcpPlan, 
         if s.write_all(&plan.stream[off..off + n]).is_err() {
             return false; // EPIPE after the server has (legitimately) closed
         }
+        let before = off;
         off += n;
-        if plan.msg_ends.contains(&off) {
+        // a write that carries the last octet of a message starts the next message's clock
+        // (also when it already carries the head of that next message)
+        if plan.msg_ends.iter().any(|e| *e > before && *e <= off) {
             *msg_elapsed = 0;
         }
         let pause = c.pauses_ms[*seg_i % c.pauses_ms.len()];
